@@ -3,6 +3,8 @@ package c17
 
 import (
 	"fmt"
+	"os"
+	"path/filepath"
 	"strings"
 	"sync"
 	"testing"
@@ -18,9 +20,34 @@ func TestMain(m *testing.M) {
 	ev.Rule("cases = (base, urlPath) pairs: exhaustive strings over {/ . a \\} x a fixed base list, plus rapid-generated arbitrary strings and bases; " +
 		"non-trivial = urlPath has a '..' segment, lacks a leading slash or contains a backslash; distinct by (base, urlPath)")
 	ev.Assume("POSIX path semantics (separator '/', backslash is an ordinary byte)")
-	ev.Assume("containment is judged lexically against a fixed fake working directory; symlinks are out of scope of the statement")
-	rt.Main(m)
+	ev.Assume("containment is judged lexically against a fixed fake working directory; the function maps strings to strings, whatever exists on disk")
+	// bases that really exist, with files, a symlink that leads out of the base, one that leads back into it, and the
+	// base itself reached through a symlink: the result is a function of the two strings, whatever is on the disk
+	dir, err := os.MkdirTemp("", "c17-")
+	if err == nil {
+		base := filepath.Join(dir, "base")
+		os.MkdirAll(filepath.Join(base, "dir"), 0o755)
+		os.MkdirAll(filepath.Join(dir, "outside"), 0o755)
+		os.WriteFile(filepath.Join(base, "file.txt"), []byte("x"), 0o644)
+		os.WriteFile(filepath.Join(base, "dir", "inner.txt"), []byte("x"), 0o644)
+		os.WriteFile(filepath.Join(dir, "outside", "secret.txt"), []byte("x"), 0o644)
+		os.Symlink("../outside", filepath.Join(base, "pub"))
+		os.Symlink(".", filepath.Join(base, "self"))
+		os.Symlink(filepath.Join(dir, "outside", "secret.txt"), filepath.Join(base, "link.txt"))
+		os.Symlink(base, filepath.Join(dir, "baselink"))
+		realBases = []string{base, base + "/", filepath.Join(dir, "baselink"), filepath.Join(base, "dir"), filepath.Join(base, "pub")}
+	}
+	code := m.Run()
+	if dir != "" {
+		os.RemoveAll(dir)
+	}
+	ev.Flush()
+	os.Exit(code)
 }
+
+var realBases []string // existing directories (see TestMain)
+
+var realSegs = []string{"file.txt", "dir", "inner.txt", "pub", "secret.txt", "self", "link.txt"}
 
 const fakeCwd = "/w0/w1/w2/w3/w4/w5/w6/w7/w8/w9/w10/w11/w12/w13/w14/w15"
 
@@ -191,7 +218,11 @@ func genURL() *rapid.Generator[string] {
 			sb.WriteString(strings.Repeat("/", rapid.IntRange(1, 3).Draw(t, "nlead")))
 		}
 		for i := 0; i < n; i++ {
-			sb.WriteString(rapid.SampledFrom(segPool).Draw(t, "seg"))
+			if rapid.IntRange(0, 3).Draw(t, "existingName") == 0 {
+				sb.WriteString(rapid.SampledFrom(realSegs).Draw(t, "realseg")) // names that exist under the real bases
+			} else {
+				sb.WriteString(rapid.SampledFrom(segPool).Draw(t, "seg"))
+			}
 			sb.WriteString(strings.Repeat("/", rapid.IntRange(0, 2).Draw(t, "sep")))
 		}
 		return sb.String()
@@ -229,6 +260,9 @@ func genBase() *rapid.Generator[string] {
 		}
 		return s
 	})
+	if len(realBases) > 0 {
+		return rapid.OneOf(rapid.SampledFrom(fixedBases), built, rapid.SampledFrom(realBases))
+	}
 	return rapid.OneOf(rapid.SampledFrom(fixedBases), built)
 }
 
